@@ -1,150 +1,284 @@
 """C06 -- overflow is detected exactly and handled as the tag specifies.
 
 Layers (leaf first):
-  L0  cnl::_impl::is_overflow<Op, polarity>::operator()<L,R>           (portable predicates)
-  L0  cnl::_impl::overflow_operator<Op, Tag, polarity>::operator()     (per-tag reaction)
-  L0g cnl::_impl::builtin_overflow_operator<Op,L,R>::operator()        (GCC paths)
-  L0g cnl::_impl::overflow_polarity<Op>::operator()                    (GCC paths)
-  L1  cnl::custom_operator<Op, op_value<L,Tag>, op_value<R,Tag>>::operator()   callers of L0, L0 replaced by contract
-  L2  public operators on cnl::overflow_integer<Rep, Tag>              callers of L1, L1 replaced by contract
+  L0  cnl::_impl::is_overflow<Op, polarity>::operator()<...>            portable predicates (Clang paths)
+  L0  cnl::_impl::overflow_operator<Op, Tag, polarity>::operator()      per-tag reaction
+  L0g cnl::_impl::builtin_overflow_operator<Op,L,R>::operator()         intrinsic (GCC paths, -U__clang__)
+  L0g cnl::_impl::overflow_polarity<Op>::operator()                     polarity guess (GCC paths)
+  L1  cnl::custom_operator<Op, op_value<L,Tag>, op_value<R,Tag>>::operator()   L0 replaced by contract
+  L2  public operators on cnl::overflow_integer<Rep, Tag>               L1 replaced by contract
 Every postcondition is the property statement: overflow handling iff the exact result is outside
 the range of the result type; saturated -> nearest bound, trapping/throwing -> signal, else exact result.
 """
 import re
 
 from vplib import cxxtypes as CT
-from vplib.speclib import (KERNEL_HEAD, POL, POLNUM, OPSYM, T, cxx, dem, W, wval, wconst, in_range, ret_val,
+from vplib.speclib import (KERNEL_HEAD, POL, POLNUM, T, cxx, dem, W, wval, wconst, ret_val,
                            Contract, Job, Kernel, shim, trunc_div)
 
 PROP = 'C06'
-TAGS = {'sat': 'saturated_overflow_tag', 'trap': 'trapping_overflow_tag', 'throw': 'throwing_overflow_tag'}
+TAGS = {'sat': 'cnl::saturated_overflow_tag', 'trap': 'cnl::trapping_overflow_tag', 'throw': 'cnl::_impl::throwing_overflow_tag'}
 OPCLS = {'add': 'add_op', 'subtract': 'subtract_op', 'multiply': 'multiply_op', 'divide': 'divide_op',
-         'shift_left': 'shift_left_op', 'minus': 'minus_op'}
+         'shift_left': 'shift_left_op', 'minus': 'minus_op', 'convert': 'convert_op'}
+SYM = {'add': '+', 'subtract': '-', 'multiply': '*'}
 
 
-def res_type(op, l, r):
-    L, Rt = T(l), T(r)
-    if op in ('shift_left', 'shift_right'):
-        return CT.promote(L)
-    return CT.common(L, Rt)
+class OpInst:
+    """one instantiation of a checked operation on built-in operands"""
+
+    def __init__(self, op, types, dest=None):
+        self.op = op
+        self.types = list(types)             # operand short type names
+        self.dest = dest                     # convert only
+        ts = [T(x) for x in types]
+        if op in ('add', 'subtract', 'multiply', 'divide'):
+            self.res = CT.common(ts[0], ts[1])
+        elif op == 'shift_left':
+            self.res = CT.promote(ts[0])
+        elif op == 'minus':
+            self.res = CT.promote(ts[0])
+        elif op == 'convert':
+            self.res = T(dest)
+        self.ts = ts
+        self.tag = '_'.join(([dest] if dest else []) + self.types)
+        # spec vector width: wide enough for the exact result and both bounds
+        b = [t.bits for t in ts] + [self.res.bits]
+        if op == 'multiply':
+            self.w = max(ts[0].bits + ts[1].bits, self.res.bits) + 3
+        elif op == 'shift_left':
+            self.w = ts[0].bits + self.res.bits + 3
+        else:
+            self.w = max(b) + 3
+
+    # template-argument spelling of operator()<...>
+    def targs(self):
+        if self.op == 'convert':
+            return '%s, %s' % (dem(self.dest), dem(self.types[0]))
+        return ', '.join(dem(t) for t in self.types)
+
+    def requires(self, args):
+        """domain restrictions taken from the statement (zero divisor, negative shift count)"""
+        if self.op == 'divide':
+            return ['%s != 0' % args[1]]
+        if self.op == 'shift_left' and self.ts[1].signed:
+            return ['(%s)%s >= 0' % (self.ts[1].sctype, args[1])]
+        return []
+
+    def hi_lo(self, args):
+        """C expressions (hi, lo, exact) over unsigned-storage argument expressions"""
+        w = self.w
+        v = [wval(a, t, w) for a, t in zip(args, self.ts)]
+        mx, mn = wconst(self.res.max, w), wconst(self.res.min, w)
+        if self.op in SYM:
+            ex = '(%s %s %s)' % (v[0], SYM[self.op], v[1])
+        elif self.op == 'divide':
+            ex = '(%s / %s)' % (v[0], v[1])
+        elif self.op == 'minus':
+            ex = '(-%s)' % v[0]
+        elif self.op == 'convert':
+            ex = v[0]
+        elif self.op == 'shift_left':
+            D = self.res.bits
+            cnt = args[1]
+            big = '(%s >= %d)' % (cnt, D)
+            sh = '(%s << (%s %% %d))' % (v[0], cnt, D)        # only used under !big
+            hi = '(%s > 0 && (%s || %s > %s))' % (v[0], big, sh, mx)
+            lo = '(%s < 0 && (%s || %s < %s))' % (v[0], big, sh, mn)
+            # when neither holds: 0 << anything == 0, else count < D and the shifted value is exact
+            ex = '(%s == 0 ? %s : %s)' % (v[0], wconst(0, w), sh)
+            return hi, lo, ex
+        else:
+            raise KeyError(self.op)
+        return '(%s > %s)' % (ex, mx), '(%s < %s)' % (ex, mn), ex
+
+    def py_exact(self, *a):
+        op = self.op
+        if op == 'add':
+            return a[0] + a[1]
+        if op == 'subtract':
+            return a[0] - a[1]
+        if op == 'multiply':
+            return a[0] * a[1]
+        if op == 'divide':
+            return trunc_div(a[0], a[1])
+        if op == 'minus':
+            return -a[0]
+        if op == 'convert':
+            return a[0]
+        if op == 'shift_left':
+            return a[0] << a[1]
+        raise KeyError(op)
+
+    def py_domain(self, *a):
+        if self.op == 'divide':
+            return a[1] != 0
+        if self.op == 'shift_left':
+            return 0 <= a[1] < 4096
+        return True
+
+    def nargs(self):
+        return len(self.types)
+
+    def possible(self, pol):
+        """can the exact result leave the result range on this side at all (interval corners)?"""
+        import itertools
+        cs = []
+        for t in self.ts:
+            c = {t.min, t.max}
+            for k in (-1, 0, 1, 2):
+                if t.min <= k <= t.max:
+                    c.add(k)
+            cs.append(sorted(c))
+        if self.op == 'shift_left':
+            cs[1] = [x for x in cs[1] if x >= 0] + [self.res.bits - 1, self.res.bits]
+        for a in itertools.product(*cs):
+            if not self.py_domain(*a):
+                continue
+            e = self.py_exact(*a)
+            if (pol == 'pos' and e > self.res.max) or (pol == 'neg' and e < self.res.min):
+                return True
+        return False
+
+    def callexpr(self, functor):
+        names = 'ab'[:self.nargs()]
+        if self.op == 'convert':
+            return '%s.template operator()<%s>(a)' % (functor, cxx(self.dest))
+        return '%s(%s)' % (functor, ', '.join(names))
+
+    def params(self):
+        return list(zip(self.types, 'ab'))
 
 
-def exact_expr(op, l, r, a='*a1', b='*a2'):
-    """(exact expression, width) for binary op on C++ types l, r"""
-    L, Rt = T(l), T(r)
-    Res = res_type(op, l, r)
-    if op in ('add', 'subtract'):
-        w = max(L.bits, Rt.bits, Res.bits) + 3
-        return '(%s %s %s)' % (wval(a, L, w), OPSYM[op], wval(b, Rt, w)), w
-    if op == 'multiply':
-        w = max(L.bits + Rt.bits, Res.bits) + 3
-        return '(%s * %s)' % (wval(a, L, w), wval(b, Rt, w)), w
-    raise KeyError(op)
+def ptr_args(oi, first=1):
+    return ['(*a%d)' % (first + i) for i in range(oi.nargs())]
 
 
-def py_exact(op, a, b):
-    if op == 'add':
-        return a + b
-    if op == 'subtract':
-        return a - b
-    if op == 'multiply':
-        return a * b
-    if op == 'divide':
-        return trunc_div(a, b)
-    if op == 'shift_left':
-        return a << b
-    raise KeyError(op)
+def in_args(oi, first=1):
+    return ['vp_in%d' % (first + i) for i in range(oi.nargs())]
 
 
 # ----------------------------------------------------------------------------- L0: is_overflow
 
-def isov_contract(op, pol, l, r):
-    Res = res_type(op, l, r)
-    ex, w = exact_expr(op, l, r)
-    bound = ('%s > %s' % (ex, wconst(Res.max, w))) if pol == 'pos' else ('%s < %s' % (ex, wconst(Res.min, w)))
-    return Contract(requires=[], ensures=['__CPROVER_return_value == (%s)' % bound], assigns=[],
-                    note='is_overflow<%s,%s><%s,%s> == (exact %s %s)' % (op, pol, l, r, '>' if pol == 'pos' else '<', 'max' if pol == 'pos' else 'lowest'))
+def isov_pattern(oi, pol):
+    return (r'cnl::_impl::is_overflow<cnl::_impl::%s, \(cnl::_impl::polarity\)%s>::operator\(\)<%s>\(' %
+            (OPCLS[oi.op], POLNUM[pol], oi.targs()))
 
 
-def isov_pattern(op, pol, l, r):
-    return (r'cnl::_impl::is_overflow<cnl::_impl::%s, \(cnl::_impl::polarity\)%s>::operator\(\)<%s, %s>\(' %
-            (OPCLS[op], POLNUM[pol], dem(l), dem(r)))
+def isov_contract(oi, pol):
+    hi, lo, ex = oi.hi_lo(ptr_args(oi))
+    return Contract(requires=oi.requires(ptr_args(oi)),
+                    ensures=['$RET == %s' % (hi if pol == 'pos' else lo)], assigns=[],
+                    note='returns true iff the exact result is %s the range of %s' % ('above' if pol == 'pos' else 'below', oi.res.name))
 
 
-def isov_oracle(op, pol, l, r):
-    Res = res_type(op, l, r)
-
-    def o(a, b):
-        e = py_exact(op, a, b)
-        return ('value', 1 if (e > Res.max if pol == 'pos' else e < Res.min) else 0)
+def isov_oracle(oi, pol):
+    def o(*a):
+        if not oi.py_domain(*a):
+            return None
+        e = oi.py_exact(*a)
+        return ('value', 1 if (e > oi.res.max if pol == 'pos' else e < oi.res.min) else 0)
     return o
 
 
 # ----------------------------------------------------------------------------- L0: overflow_operator
 
-def ovop_pattern(op, tag, pol, l, r):
-    return (r'cnl::_impl::overflow_operator<cnl::_impl::%s, cnl::%s, \(cnl::_impl::polarity\)%s>::operator\(\)<%s, %s>\(' %
-            (OPCLS[op], TAGS[tag], POLNUM[pol], dem(l), dem(r)))
+def ovop_pattern(oi, tag, pol):
+    return (r'cnl::_impl::overflow_operator<cnl::_impl::%s, %s, \(cnl::_impl::polarity\)%s>::operator\(\)<%s>\(' %
+            (OPCLS[oi.op], re.escape(TAGS[tag]), POLNUM[pol], oi.targs()))
 
 
-def ovop_contract(op, tag, pol, l, r):
-    Res = res_type(op, l, r)
-    ex, w = exact_expr(op, l, r)
-    cond = ('%s > %s' % (ex, wconst(Res.max, w))) if pol == 'pos' else ('%s < %s' % (ex, wconst(Res.min, w)))
+def ovop_contract(oi, tag, pol):
+    hi, lo, ex = oi.hi_lo(ptr_args(oi))
+    cond = hi if pol == 'pos' else lo
     if tag == 'sat':
-        # always returns the bound on its side; the caller may only call it on that side (requires)
-        bound = Res.max if pol == 'pos' else Res.min
-        return Contract(requires=[cond], ensures=['%s == %s' % (ret_val(Res, w), wconst(bound, w))], assigns=[])
-    # trapping / throwing: never returns; may only be called when the exact result is out of range on this side
-    return Contract(requires=[cond], ensures=['0'], assigns=[], noreturn=True)
+        bound = oi.res.max if pol == 'pos' else oi.res.min
+        return Contract(requires=oi.requires(ptr_args(oi)) + [cond],
+                        ensures=['%s == %s' % (ret_val(oi.res, oi.w), wconst(bound, oi.w))], assigns=[],
+                        note='saturated: yields the bound on its side; callable only on that side')
+    return Contract(requires=oi.requires(ptr_args(oi)) + [cond], ensures=['0'], assigns=[], noreturn=True,
+                    note='%s: never returns (signals); callable only when the exact result is out of range on this side' % tag)
+
+
+def ovop_defs(oi, tag, pol, args):
+    """signal-stub permissions for a job that enforces a trapping/throwing leaf (requires holds => signal allowed)"""
+    if tag == 'trap':
+        return {'VP_TRAP_%s_OK' % pol.upper(): '1'}
+    if tag == 'throw':
+        return {'VP_THROW_%s_OK' % pol.upper(): '1'}
+    return {}
+
+
+# ----------------------------------------------------------------------------- L0g: builtin path leaves
+
+def builtin_pattern(oi):
+    return (r'cnl::_impl::builtin_overflow_operator<cnl::_impl::%s, %s, %s>::operator\(\)<%s>\(' %
+            (OPCLS[oi.op], dem(oi.types[0]), dem(oi.types[1]), re.escape(oi.res.name)))
+
+
+def builtin_contract(oi):
+    hi, lo, ex = oi.hi_lo(ptr_args(oi))
+    return Contract(requires=[], ensures=['$RET == (%s || %s)' % (hi, lo),
+                                         '(!$RET) ==> %s == %s' % (wval('*a3', oi.res, oi.w), ex)],
+                    assigns=['*a3'],
+                    note='intrinsic: reports overflow iff exact result not representable; stores the exact result otherwise')
+
+
+def polarity_pattern(oi):
+    return (r'cnl::_impl::overflow_polarity<cnl::_impl::%s>::operator\(\)<%s>\(' % (OPCLS[oi.op], oi.targs()))
+
+
+def polarity_contract(oi):
+    hi, lo, ex = oi.hi_lo(ptr_args(oi))
+    return Contract(requires=[], ensures=['%s ==> $RET == 1U' % hi,
+                                         '%s ==> $RET == 4294967295U' % lo], assigns=[],
+                    note='what the caller\'s switch relies on: the guessed polarity is the side on which the exact result leaves the range, whenever it leaves it')
 
 
 # ----------------------------------------------------------------------------- L1: custom_operator
 
-def custop_pattern(op, tag, l, r):
-    return (r'cnl::custom_operator<cnl::_impl::%s, cnl::op_value<%s, cnl::%s>, cnl::op_value<%s, cnl::%s> ?>::operator\(\)\(' %
-            (OPCLS[op], dem(l), TAGS[tag], dem(r), TAGS[tag]))
+def custop_pattern(oi, tag):
+    if oi.op == 'convert':
+        return (r'cnl::custom_operator<cnl::_impl::convert_op, cnl::op_value<%s, cnl::_impl::native_tag>, cnl::op_value<%s, %s> ?>::operator\(\)\(' %
+                (dem(oi.types[0]), dem(oi.dest), re.escape(TAGS[tag])))
+    ops = ', '.join('cnl::op_value<%s, %s>' % (dem(t), re.escape(TAGS[tag])) for t in oi.types)
+    return r'cnl::custom_operator<cnl::_impl::%s, %s ?>::operator\(\)\(' % (OPCLS[oi.op], ops)
 
 
-def top_contract(op, tag, l, r):
-    Res = res_type(op, l, r)
-    ex, w = exact_expr(op, l, r)
-    hi = '(%s > %s)' % (ex, wconst(Res.max, w))
-    lo = '(%s < %s)' % (ex, wconst(Res.min, w))
-    rv = ret_val(Res, w)
+def top_contract(oi, tag, args=None):
+    args = args or ptr_args(oi)
+    hi, lo, ex = oi.hi_lo(args)
+    w = oi.w
+    rv = ret_val(oi.res, w)
     if tag == 'sat':
-        ens = ['%s ==> %s == %s' % (hi, rv, wconst(Res.max, w)),
-               '%s ==> %s == %s' % (lo, rv, wconst(Res.min, w)),
+        ens = ['%s ==> %s == %s' % (hi, rv, wconst(oi.res.max, w)),
+               '%s ==> %s == %s' % (lo, rv, wconst(oi.res.min, w)),
                '(!%s && !%s) ==> %s == %s' % (hi, lo, rv, ex)]
     else:
         ens = ['!%s && !%s' % (hi, lo), '%s == %s' % (rv, ex)]
-    return Contract(requires=[], ensures=ens, assigns=[])
+    return Contract(requires=oi.requires(args), ensures=ens, assigns=[],
+                    note='statement of C06 for tag %s' % tag)
 
 
-def top_oracle(op, tag, l, r):
-    Res = res_type(op, l, r)
-
-    def o(a, b):
-        e = py_exact(op, a, b)
-        if e > Res.max:
-            return ('value', Res.max) if tag == 'sat' else (('trap' if tag == 'trap' else 'throw'), 'positive overflow')
-        if e < Res.min:
-            return ('value', Res.min) if tag == 'sat' else (('trap' if tag == 'trap' else 'throw'), 'negative overflow')
+def top_oracle(oi, tag):
+    def o(*a):
+        if not oi.py_domain(*a):
+            return None
+        e = oi.py_exact(*a)
+        sig = 'trap' if tag == 'trap' else 'throw'
+        if e > oi.res.max:
+            return ('value', oi.res.max) if tag == 'sat' else (sig, 'positive overflow')
+        if e < oi.res.min:
+            return ('value', oi.res.min) if tag == 'sat' else (sig, 'negative overflow')
         return ('value', e)
     return o
 
 
-def signal_defs(op, tag, l, r):
-    """macros for the signal stubs when leaves are inlined (over the harness inputs vp_in1, vp_in2)"""
-    Res = res_type(op, l, r)
-    ex, w = exact_expr(op, l, r, 'vp_in1', 'vp_in2')
-    hi = '(%s > %s)' % (ex, wconst(Res.max, w))
-    lo = '(%s < %s)' % (ex, wconst(Res.min, w))
-    if tag == 'trap':
-        return {'VP_TRAP_POS_OK': hi, 'VP_TRAP_NEG_OK': lo}
-    if tag == 'throw':
-        return {'VP_THROW_POS_OK': hi, 'VP_THROW_NEG_OK': lo}
-    return {}
+def tagged_call(oi, tag):
+    t = TAGS[tag]
+    if oi.op == 'convert':
+        return 'return cnl::convert<%s, %s>{}(a);' % (t, cxx(oi.dest))
+    names = ', '.join('ab'[:oi.nargs()])
+    return 'return cnl::_impl::operate<cnl::_impl::%s, %s>{}(%s);' % (OPCLS[oi.op], t, names)
 
 
 # ----------------------------------------------------------------------------- plan
@@ -153,44 +287,148 @@ SAME = [('i8', 'i8'), ('u8', 'u8'), ('i16', 'i16'), ('u16', 'u16'), ('i32', 'i32
 MIXW = [('i8', 'i32'), ('i32', 'i8'), ('i16', 'i64'), ('i64', 'i32'), ('u8', 'u32'), ('u32', 'u64'), ('u16', 'i32'), ('i64', 'u32'), ('u8', 'i16')]
 MIXS = [('i32', 'u32'), ('u32', 'i32'), ('i64', 'u64'), ('u64', 'i64'), ('i8', 'u32'), ('u32', 'i8'), ('i32', 'u64'), ('u64', 'i32')]
 WIDE = [('i128', 'i128'), ('u128', 'u128'), ('i64', 'i128'), ('u128', 'u64')]
+UNARY = ['i8', 'u8', 'i16', 'u16', 'i32', 'u32', 'i64', 'u64']
+SHIFT = [('i8', 'i32'), ('u8', 'u8'), ('i16', 'i32'), ('i32', 'i32'), ('u32', 'i32'), ('i32', 'u8'), ('i64', 'i32'), ('u64', 'u64')]
+CONV = [('i32', 'i8'), ('i32', 'u8'), ('u32', 'i8'), ('i16', 'u16'), ('u16', 'i16'), ('i64', 'i32'), ('u64', 'i32'),
+        ('i32', 'u32'), ('u32', 'i32'), ('i8', 'u64'), ('i64', 'u64'), ('u64', 'i64'), ('i8', 'i32'), ('u8', 'i8'), ('i32', 'i32')]
+# (source, destination)
+
+
+QUICK = [('i8', 'i8'), ('u8', 'u8'), ('u16', 'u16'), ('i32', 'i32'), ('u32', 'u32'), ('i64', 'i64'), ('u64', 'u64'),
+         ('i32', 'u32'), ('u64', 'i32'), ('i16', 'i64'), ('i128', 'i128')]
+
+
+def op_instances(thorough):
+    out = []
+    pairs = (SAME + MIXW + MIXS + WIDE) if thorough else QUICK
+    for op in ('add', 'subtract'):
+        for p in pairs:
+            out.append(OpInst(op, p))
+    for p in pairs:
+        tot = T(p[0]).bits + T(p[1]).bits
+        out.append(OpInst('multiply', p))
+    for p in (SAME + MIXS[:4] + MIXW[:4]) if thorough else [('i8', 'i8'), ('i16', 'u16'), ('u16', 'u16'), ('i8', 'i16')]:
+        out.append(OpInst('divide', p))
+    for t in (UNARY + ['i128']) if thorough else ['i8', 'u8', 'i32', 'u32', 'i64']:
+        out.append(OpInst('minus', [t]))
+    for p in SHIFT if thorough else SHIFT[:5]:
+        out.append(OpInst('shift_left', p))
+    for s, d in CONV if thorough else CONV[:9]:
+        out.append(OpInst('convert', [s], dest=d))
+    return out
+
+
+def hardness(oi, cfg):
+    """(solvers, timeout, include_in_quick) for the obligations of this instantiation;
+    None = beyond every SAT back end here (listed under not_applicable_parts)"""
+    if oi.op in ('multiply', 'divide'):
+        tot = oi.ts[0].bits + oi.ts[1].bits
+        if tot <= 16:
+            return ('minisat',), 120, True
+        if tot <= 32:
+            return ('cadical', 'kissat'), 900, False
+        if tot <= 64 and not (oi.op == 'multiply' and cfg == 'clang' and tot > 64):
+            return ('kissat', 'cadical'), 2400, False
+        return None
+    return ('minisat',), 90, True
 
 
 def plan(tier):
     thorough = tier == 'thorough'
-    pairs_lin = SAME + MIXW + MIXS + (WIDE if thorough else [('i128', 'i128')])
     src = {'clang': [KERNEL_HEAD], 'gcc': [KERNEL_HEAD]}
     jobs = []
     inst = []
-
-    def add_shim(cfg, text):
-        src[cfg].append(text)
-
-    for cfg in ('clang',):
-        kname = 'C06_' + cfg
-        for op in ('add', 'subtract', 'multiply'):
-            for (l, r) in pairs_lin:
-                L, Rt = T(l), T(r)
-                if op == 'multiply':
-                    # divider vs multiplier: only narrow operands are decidable by SAT in the tier budgets
-                    tot = L.bits + Rt.bits
-                    if tot > (32 if not thorough else 64):
-                        continue
+    skipped = []
+    for oi in op_instances(thorough):
+        for cfg in ('clang', 'gcc'):
+            h = hardness(oi, cfg)
+            if h is None:
+                skipped.append('%s %s (%s): multiplier/divider obligation beyond every SAT back end here' % (oi.op, oi.tag, cfg))
+                continue
+            solvers, timeout, quick = h
+            if not thorough and not quick:
+                continue
+            builtin = cfg == 'gcc' and oi.op in ('add', 'subtract', 'multiply')
+            if cfg == 'gcc' and not builtin and oi.op not in ('minus', 'convert'):
+                # the GCC build selects the same portable code for these operators; proved once under 'clang'
+                # (unary minus and convert are cheap and are re-proved under both to show path independence)
+                continue
+            kname = 'C06_' + cfg
+            base = '%s.%s.%s' % (PROP, cfg, oi.op)
+            nm = oi.tag
+            first = 1
+            # ---- L0 predicates
+            if not builtin:
                 for pol in ('pos', 'neg'):
-                    sname = 'vp_isov_%s_%s_%s_%s' % (op, pol, l, r)
-                    add_shim(cfg, shim('bool', sname, [(l, 'a'), (r, 'b')],
-                                       'return cnl::_impl::is_overflow<cnl::_impl::%s, %s>{}(a, b);' % (OPCLS[op], POL[pol])))
-                    hard = op == 'multiply' and L.bits + Rt.bits > 32
-                    jobs.append(Job('%s.%s.L0.is_overflow.%s.%s.%s.%s' % (PROP, cfg, op, pol, l, r), kname,
-                                    isov_pattern(op, pol, l, r), isov_contract(op, pol, l, r),
-                                    shim=sname, shim_types=[l, r], oracle=isov_oracle(op, pol, l, r), prop=PROP,
-                                    solvers=('cadical', 'kissat') if hard else ('minisat',),
-                                    timeout=900 if hard else 60, layer=0))
-                    inst.append((cfg, 'is_overflow', op, pol, l, r))
-    kernels = [Kernel('C06_clang', ''.join(src['clang']), [], 'portable (Clang) detection path')]
+                    sname = 'vp_isov_%s_%s_%s' % (oi.op, pol, nm)
+                    src[cfg].append(shim('bool', sname, oi.params(), 'return %s;' % oi.callexpr(
+                        'cnl::_impl::is_overflow<cnl::_impl::%s, %s>{}' % (OPCLS[oi.op], POL[pol]))))
+                    jobs.append(Job('%s.L0.is_overflow.%s.%s' % (base, pol, nm), kname, isov_pattern(oi, pol), isov_contract(oi, pol),
+                                    shim=sname, shim_types=oi.types, oracle=isov_oracle(oi, pol), prop=PROP,
+                                    solvers=solvers, timeout=timeout, layer=0))
+            else:
+                sname = 'vp_builtin_%s_%s' % (oi.op, nm)
+                src[cfg].append(shim('bool', sname, oi.params(),
+                                     '%s r{}; return cnl::_impl::builtin_overflow_operator<cnl::_impl::%s, %s, %s>{}(a, b, r);'
+                                     % (oi.res.cname, OPCLS[oi.op], cxx(oi.types[0]), cxx(oi.types[1]))))
+                jobs.append(Job('%s.L0.builtin_overflow.%s' % (base, nm), kname, builtin_pattern(oi), builtin_contract(oi),
+                                shim=sname, shim_types=oi.types, prop=PROP, solvers=solvers, timeout=timeout, layer=0,
+                                oracle=(lambda oi: lambda a, b: ('value', 0 if oi.res.min <= oi.py_exact(a, b) <= oi.res.max else 1))(oi),
+                                cex_filter=lambda leaves: leaves[:2]))
+                sname = 'vp_polarity_%s_%s' % (oi.op, nm)
+                src[cfg].append(shim('int', sname, oi.params(),
+                                     'return static_cast<int>(cnl::_impl::overflow_polarity<cnl::_impl::%s>{}(a, b));' % OPCLS[oi.op]))
+
+                def pol_oracle(oi):
+                    def o(a, b):
+                        e = oi.py_exact(a, b)
+                        if e > oi.res.max:
+                            return ('value', 1)
+                        if e < oi.res.min:
+                            return ('value', -1)
+                        return None
+                    return o
+                jobs.append(Job('%s.L0.overflow_polarity.%s' % (base, nm), kname, polarity_pattern(oi), polarity_contract(oi),
+                                shim=sname, shim_types=oi.types, prop=PROP, solvers=solvers, timeout=timeout, layer=0,
+                                oracle=pol_oracle(oi)))
+            # ---- L0 reactions + L1 operator, per tag
+            for tag in ('sat', 'trap', 'throw'):
+                sname = 'vp_%s_%s_%s' % (tag, oi.op, nm)
+                src[cfg].append(shim(_ret_short(oi), sname, oi.params(), tagged_call(oi, tag)))
+                repl = []
+                for pol in ('pos', 'neg'):
+                    if not oi.possible(pol):
+                        continue      # this side cannot overflow for the instantiation: the leaf is unreachable (shown by L1)
+                    c = ovop_contract(oi, tag, pol)
+                    if thorough or cfg == 'clang':
+                      jobs.append(Job('%s.L0.overflow_operator.%s.%s.%s' % (base, tag, pol, nm), kname, ovop_pattern(oi, tag, pol), c,
+                                    prop=PROP, solvers=solvers, timeout=timeout, layer=0,
+                                    defines=ovop_defs(oi, tag, pol, None), canary='ensures' if tag == 'sat' else 'signal'))
+                    repl.append((ovop_pattern(oi, tag, pol), c))
+                if not builtin:
+                    for pol in ('pos', 'neg'):
+                        repl.append((isov_pattern(oi, pol), isov_contract(oi, pol)))
+                if builtin:
+                    repl.append((builtin_pattern(oi), builtin_contract(oi)))
+                    repl.append((polarity_pattern(oi), polarity_contract(oi)))
+                jobs.append(Job('%s.L1.custom_operator.%s.%s' % (base, tag, nm), kname, custop_pattern(oi, tag), top_contract(oi, tag),
+                                replace=repl, shim=sname, shim_types=oi.types, oracle=top_oracle(oi, tag), prop=PROP,
+                                solvers=solvers, timeout=timeout, layer=1))
+            inst.append((cfg, oi.op, nm))
+    kernels = [Kernel('C06_clang', ''.join(src['clang']), [], 'portable (Clang) detection path'),
+               Kernel('C06_gcc', ''.join(src['gcc']), ['-U__clang__'], 'intrinsic (GCC) detection path: clang front end with __clang__ undefined')]
     meta = {
         'instantiations': len(inst),
-        'explanation': 'per-function contracts taken from the property statement, discharged by CBMC on C extracted from clang -O0 IR',
-        'not_applicable_parts': [],
-        'assumptions': [],
+        'explanation': 'per-function contracts taken from the property statement, discharged by CBMC on C extracted from clang -O0 IR; '
+                       'callers proved against callee contracts (goto-instrument --dfcc --replace-call-with-contract)',
+        'not_applicable_parts': skipped + ['floating-point sources of convert: see C06 float jobs / DESIGN.md'],
+        'assumptions': ['-U__clang__ under clang selects the same preprocessor branches a GCC build selects'],
     }
     return {'kernels': kernels, 'jobs': jobs, 'meta': meta}
+
+
+def _ret_short(oi):
+    for k, v in CT.ALIAS.items():
+        if v == oi.res.name and k[0] in 'iu':
+            return k
+    raise KeyError(oi.res.name)
